@@ -700,6 +700,10 @@ func c17Check(e *Env, src string, run bool, record bool) (v c17Verdict) {
 			break
 		}
 	}
+	// Spec of the file order (marshal_code_order): the code list is the Flatten sequence
+	if d := c17OrderSpec(code, b1); d != "" {
+		v.viol = append(v.viol, d)
+	}
 	st := &c17Stats{kinds: map[string]int{}}
 	nodes, table, probs := c17ExportStats(code, st)
 	if record {
@@ -1225,7 +1229,13 @@ func c17_runC17(e *Env) {
 		"level, in a function body, an if-block or a loop body, every one of them called), the directed programs, and every script of the " +
 		"repository (marshalled and compared, not run); on every program the real reloaded tree is compared field by field with the real compiled " +
 		"tree and the frame fit of every function constant (parameters + the function itself when IsNamed() against LocalsCount()) is evaluated " +
-		"on both trees; " +
+		"on both trees, and the ids of the code list of the real bytes are compared with the real Flatten order; " +
+		"large programs: 18–90 functions (19–91 code objects, most of them ≥ 24) as flat lists, chains of nested functions up to depth 7, bushy and " +
+		"deep trees, one function with dozens of inner functions, named functions and bound literals, defaults, locals, free variables, every " +
+		"function called — checked like every other program (a case each, non-trivial when it compiles); list order: the real bytes of " +
+		"directed, generated and large programs are given to the real UnmarshalCode with the code list permuted (identity, parents-first " +
+		"shuffles, reversed, last first, root moved back, random shuffle, adjacent swap, one child before its parent) and verdict, error " +
+		"and entry point are compared with the model's unmarshal ∘ reorder (not counted as cases); " +
 		"a case is one program; distinct by its source text; non-trivial when it compiles and has ≥ 3 statement forms or block depth ≥ 3. " +
 		"Sessions: 2–4 compiled programs of mixed size (tiny, directed, one inserted statement, generated) and a sequence of 3–15 " +
 		"MarshalCode(code i)/UnmarshalCode(bytes j) calls over the growing store of retained results (marshal all then reload from the first; " +
@@ -1284,6 +1294,8 @@ func c17_runC17(e *Env) {
 			break
 		}
 	}
+	// large programs (18–90 functions) and the order of the serialised code list (c17ord.go)
+	c17LargePrograms(e)
 	// repository scripts: compiled, marshalled, reloaded, compared with the model; not run
 	// (they touch the network, the clock and the file system)
 	var files []string
